@@ -102,7 +102,7 @@ def lower(srcs, harness, keep, opt='-O1', extra=(), exceptions=False):
             # Utilities.cpp uses try/catch; everything else is lowered without exception tables
             if not (exceptions or os.path.basename(path) == 'Utilities.cpp'):
                 fl.append('-fno-exceptions')
-            cmd = ['clang++-14', opt] + fl + ['-I' + os.path.join(REPO, 'include'), '-I' + gd, '-I' + os.path.join(VERIF, 'harness'), '-S', '-emit-llvm', path, '-o', o]
+            cmd = ['clang++-14', opt] + fl + ['-I' + os.path.join(REPO, 'include'), '-I' + gd, '-I' + os.path.join(VERIF, 'harness'), '-I' + os.path.join(REPO, 'src'), '-S', '-emit-llvm', path, '-o', o]
             procs.append((cmd, subprocess.Popen(cmd, stdout=subprocess.PIPE, stderr=subprocess.STDOUT, text=True)))
             lls.append(o)
         for cmd, p in procs:
@@ -138,7 +138,7 @@ def native_so(srcs, harness, extra=()):
             path = s if os.path.isabs(s) else os.path.join(REPO, 'src', s)
             o = os.path.join(tmp, os.path.basename(path) + '.o')
             cmd = ['g++', '-std=c++14', '-O2', '-fPIC', '-fno-access-control', '-w', '-DVERIF_NATIVE', '-D' + GUARD] + list(extra) + \
-                  ['-I' + os.path.join(REPO, 'include'), '-I' + gd, '-I' + os.path.join(VERIF, 'harness'), '-c', path, '-o', o]
+                  ['-I' + os.path.join(REPO, 'include'), '-I' + gd, '-I' + os.path.join(VERIF, 'harness'), '-I' + os.path.join(REPO, 'src'), '-c', path, '-o', o]
             procs.append((cmd, subprocess.Popen(cmd, stdout=subprocess.PIPE, stderr=subprocess.STDOUT, text=True)))
             objs.append(o)
         for cmd, p in procs:
